@@ -130,7 +130,9 @@ func (backupManager *BackupManager) DoNativeBackup() error {
 	backupFilename := backupManager.backupLocation + string(os.PathSeparator) + "datahub-backup.kv"
 	var file *os.File
 	if backupManager.fileExists(backupFilename) {
-		file, _ = os.Open(backupFilename)
+		// incremental runs append what changed since the last run; os.Open is read-only and made
+		// every run after the first one silently write nothing
+		file, _ = os.OpenFile(backupFilename, os.O_APPEND|os.O_WRONLY, 0o600)
 	} else {
 		file, _ = os.Create(backupFilename)
 	}
